@@ -49,7 +49,7 @@ WIRE = {'range': 'Range', 'content-length': 'Content-Length', 'if-match': 'If-Ma
 HNAMES = sorted(WIRE)
 CASINGS = ('lower', 'Title', 'UPPER', 'mIxEd')
 ABSENT = {'p': False, 'o': False, 't': []}
-G_HDR = {'range': 'range', 'rset': 'range', 'clen': 'content-length', 'etag': 'if-none-match', 'fwd': 'forwarded',
+G_HDR = {'range': 'range', 'rset': 'range', 'clenx': 'content-length', 'clen': 'content-length', 'etag': 'if-none-match', 'fwd': 'forwarded',
          'xff': 'x-forwarded-for', 'host': 'host'}
 # accessors the specification says nothing about beyond "value or 400, same on every read"
 EXTRA_ATTRS = ('date', 'if_modified_since', 'if_unmodified_since', 'cookies', 'accept', 'client_accepts_json',
@@ -76,6 +76,7 @@ def unesc(s):
     """inverse of esc() for the \\u{hex} spelling: the text that goes on the wire (latin-1 characters: a
     native string in the WSGI environ, raw bytes in the ASGI scope - engine/drivers.py encodes latin-1)."""
     import re
+    s = re.sub(r'\\r\{(.)\*(\d+)\}', lambda m: m.group(1) * int(m.group(2)), s)      # \\r{char*count}: a long run
     return re.sub(r'\\u\{([0-9a-f]+)\}', lambda m: chr(int(m.group(1), 16)), s)
 
 
@@ -214,13 +215,14 @@ def nontrivial(rq):
 # random requests for leg B
 # ---------------------------------------------------------------------------------------------------
 
-FUZZ_CHARS = list('0123456789-=,;:. "[]\\/*Ww_xbytes') + ['\t', '\x00', '\xe9', '\xff', '%', '+', '@']
+FUZZ_CHARS = list('0123456789-=,;:. "[]\\/*Ww_xbytes') + ['\t', '\x00', '\xe9', '\xff', '%', '+', '@', '\xb2', '\xb3', '\xb9']
 
 
 class Gen:
     def __init__(self, rng, vocab):
         self.r = rng
-        self.v = {k: sorted(x) for k, x in vocab.items()}
+        # run tokens (\r{..}) expand on the wire: they are used through opaque values only (see header())
+        self.v = {k: sorted(t for t in x if not t.startswith('\\r{')) for k, x in vocab.items()}
 
     def num(self, lo=1, hi=4):
         return [self.r.choice('0123456789') for _ in range(self.r.randint(lo, hi))]
@@ -230,7 +232,7 @@ class Gen:
         if g == 'range':
             unit = [r.choice(['bytes', 'bytes', 'bytes', 'items', 'x'])]
             k = r.random()
-            a = self.num()
+            a = self.num() if r.random() < 0.8 else ['0'] * r.randint(1, 3)      # first/last = 0 and 0-0 forms
             spec = a + ['-'] + (a if r.random() < 0.25 else self.num()) if k < 0.4 else a + ['-'] if k < 0.7 else ['-'] + a
             if r.random() < 0.15:
                 spec += [','] + ([' '] if r.random() < 0.5 else []) + self.num() + ['-']
@@ -298,6 +300,11 @@ class Gen:
     def header(self, g):
         r = self.r
         k = r.random()
+        if g == 'clen' and k < 0.25:
+            # digit look-alikes (str.isdigit() is true for them, int() refuses), digit runs around CPython's
+            # 4300-digit conversion limit, signs, leading zeros, surrounding whitespace
+            return opaque(r.choice(['\xb2', '4\xb3', '\xb9\xb2', '1\xb9', '9' * 4300, '9' * 4301, '1' * 5000, '0' * 4400 + '7',
+                                    '007', '+5', '-0', '+0', ' 5', '5 ', ' 12 ', '\t3', '0', '00', '1_0', '\xb2' * 3]))
         if k < 0.45:
             return hdr(self.valid(g))
         if k < 0.8:
@@ -395,7 +402,7 @@ def run(ctx):
             vocab = meta[0]['vocab']
             spec_attrs = set(meta[0]['attrs'])
     r.coverage = {k: (v, v) for k, v in guard.items()}          # firing counters stand in for -coverage (see META)
-    ctx.require_coverage(r, ['XRange', 'XRSet', 'XCLen', 'XETag', 'XFwd', 'XXff', 'XHost', 'XReadUri', 'XReadForwardedUri',
+    ctx.require_coverage(r, ['XRange', 'XRSet', 'XCLen', 'XCLenX', 'XETag', 'XFwd', 'XXff', 'XHost', 'XReadUri', 'XReadForwardedUri',
                              'XReadRelativeUri', 'XReadPrefix', 'XReadForwardedPrefix', 'XReadForwarded',
                              'XReadAccessRoute', 'XReadETags', 'XReadPlain', 'XGetHeader'])
     ctx.extra['action_firings'] = guard
@@ -459,7 +466,7 @@ def run(ctx):
                 # raw lookup under every casing of the name
                 for lc in CASINGS:
                     o, ex = observe(q, 'get_header', G_HDR[g], lc)
-                    if o != {'k': 'value', 's': esc(row['text']), 'i': [], 'l': []}:
+                    if o != {'k': 'value', 's': esc(unesc(row['text'])), 'i': [], 'l': []}:
                         fail('P:lookup', dict(case, lookup_casing=lc, observed=o),
                              'get_header(%r) gave %r for wire text %r' % (cased(G_HDR[g], lc), o, row['text']))
     ctx.traces_validated += n_a1
